@@ -98,6 +98,9 @@ def run(tier, seed, replay=None):
             for (kind, t, m), v, o in zip(planted, o_pl, outs):
                 key = v.split(":")[0]
                 stats[(cfg, kind, key)] = stats.get((cfg, kind, key), 0) + 1
+                if m.get("feasible") is False:
+                    # constant facts that collide: unsolvable by construction (a reported solution is C04 / C05's business)
+                    continue
                 if v == "F":
                     note("planted-" + kind, t, o, f"a {kind} program built around a feasible solution is rejected as unsolvable")
                 elif key == "E":
